@@ -84,7 +84,7 @@ def run_history(ctx, scenarios, nwalks, clause='history_independent'):
             except Exception as e:
                 raise Machinery('scenario %s cannot build its start object: %r' % (sc.name, e))
             events.append(dict(tid=tid, ev='init', cfg=list(cfg), d=0, v=0, dig=0, fresh=0))
-            meta[tid] = dict(scenario=sc.name, init=vals, trail=trail)
+            meta[tid] = dict(scenario=sc.name, init=list(vals), trail=trail)
             for op, d, v in w['walk']:
                 if op == 'set':
                     d0 = d - 1
